@@ -461,3 +461,25 @@ Fixpoint sv_run (bs : nat) (st : vstate) (id : N) (chunks : list bytes) : verdic
   end.
 
 Definition validate_stream (bs : nat) (chunks : list bytes) : verdict := sv_run bs VNone 0 chunks.
+
+(* ------------------------------------------------------------------ *)
+(* reference semantics used by the theorems                             *)
+
+(* reading a byte stream [avail] that ends in EOF (bad = false) or in a block that
+   fails its checksum (bad = true) *)
+Fixpoint spec_reads (avail : bytes) (bad : bool) (reads : list nat) : list robs :=
+  match reads with
+  | [] => []
+  | n :: more =>
+    if (n <=? length avail)%nat then OData (firstn n avail) :: spec_reads (skipn n avail) bad more
+    else if bad then [OPanic]
+    else OEof avail :: spec_reads [] false more
+  end.
+
+(* the reader SnapshotReader.getHeader creates for a version 2 file with the given body *)
+Definition v2_reader (body : bytes) : sreader :=
+  mkSR ss_v2 checksum_crc32ieee None (mkBR (firstn (length body - tsz) body) []) [].
+
+(* l' is l, or a prefix of l followed by a panic: nothing different is ever handed out *)
+Definition agree_until_panic (l' l : list robs) : Prop :=
+  l' = l \/ exists k, l' = firstn k l ++ [OPanic].
